@@ -59,7 +59,7 @@ func (S) Info() scen.Info {
 			"goroutine scheduling": "stub: seeded one-at-a-time scheduler; yields between operations, between reader chunks, inside visitor and transform callbacks",
 		},
 		QuickUnits: 24000, ThoroughUnits: 3000000, QuickSecs: 40, ThoroughSecs: 1200,
-		ProbeKeys: []string{"probe.reset_producer", "probe.assign_then_reset", "probe.copy_and_extend", "probe.largebytes_interleaved", "probe.two_readers_same_node", "probe.subset_match_bytes", "probe.subset_match_string", "probe.focused_transform", "probe.walk_transform", "probe.abandoned_builder", "probe.typed_node_in_pool", "probe.stream_bytes_node", "probe.callback_interleaved", "probe.loaded_node_in_pool", "probe.load_while_holding_loaded_nodes"},
+		ProbeKeys: []string{"probe.reset_producer", "probe.assign_then_reset", "probe.copy_and_extend", "probe.largebytes_interleaved", "probe.two_readers_same_node", "probe.subset_match_bytes", "probe.subset_match_string", "probe.focused_transform", "probe.walk_transform", "probe.abandoned_builder", "probe.typed_node_in_pool", "probe.stream_bytes_node", "probe.callback_interleaved", "probe.loaded_node_in_pool", "probe.load_while_holding_loaded_nodes", "probe.iterator_nodes_retained"},
 		EventsKey: "events",
 	}
 }
@@ -91,6 +91,11 @@ type world struct {
 	cids  []string
 }
 
+type TMap struct {
+	Keys   []string
+	Values map[string]int64
+}
+
 type Rec struct {
 	Name string
 	N    int64
@@ -100,6 +105,7 @@ type Rec struct {
 
 var ts = func() *schema.TypeSystem {
 	t, err := ipld.LoadSchemaBytes([]byte(`
+type TMap {String:Int}
 type Rec struct {
 	Name String
 	N Int
@@ -239,7 +245,7 @@ func (S) RunTape(t *sim.Tape, st *sim.Stats, keepLog bool) *sim.Outcome {
 	// ---- initial pool ----
 	n0 := 3 + t.Choice(6, "npool")
 	for i := 0; i < n0; i++ {
-		w.spawn(t.Choice(9, "src"))
+		w.spawn(t.Choice(10, "src"))
 	}
 	for len(w.pool) < 2 {
 		w.spawn(0)
@@ -256,7 +262,7 @@ func (S) RunTape(t *sim.Tape, st *sim.Stats, keepLog bool) *sim.Outcome {
 	total := 0
 	for h := 0; h < nh; h++ {
 		for total < 80 && len(plans[h]) < 30 && t.Begin("step", 92) {
-			plans[h] = append(plans[h], step{t.Choice(16, "op"), t.Choice(64, "a"), t.Choice(64, "b"), t.Choice(64, "c")})
+			plans[h] = append(plans[h], step{t.Choice(19, "op"), t.Choice(64, "a"), t.Choice(64, "b"), t.Choice(64, "c")})
 			total++
 			t.End()
 		}
@@ -384,6 +390,32 @@ func (w *world) spawn(k int) {
 		b := t.Sub("stream").Bytes(1 + t.Choice(300, "stream.len"))
 		w.add(basicnode.NewBytesFromReader(bytes.NewReader(b)), model.BytesV(b), "bytes-from-reader", nil)
 		w.st.Inc("probe.stream_bytes_node")
+	case 9: // bindnode typed map, with a repeated key if the builder lets it through
+		np := bindnode.Prototype((*TMap)(nil), ts.TypeByName("TMap"))
+		nb := np.NewBuilder()
+		var node datamodel.Node
+		pan := safe(func() {
+			ma, err := nb.BeginMap(4)
+			if err != nil {
+				return
+			}
+			keys := []string{"k1", "k2", "k3", "k2", "k4", "k1"}[:3+t.Choice(4, "dup.n")]
+			for i, k := range keys {
+				va, err := ma.AssembleEntry(k)
+				if err != nil {
+					continue // a builder that refuses the repeat is right; go on with the rest
+				}
+				va.AssignInt(int64(i))
+			}
+			if ma.Finish() == nil {
+				node = nb.Build()
+			}
+		})
+		if pan == "" && node != nil {
+			w.add(node, nil, "bindnode-map-builder", nil)
+			w.add(node.(schema.TypedNode).Representation(), nil, "bindnode-map-builder-repr", nil)
+			w.st.Inc("probe.typed_node_in_pool")
+		}
 	case 8: // a container holding strings and bytes worth slicing
 		v := model.MapV().Put("s", model.StringV("hello wörld, this is a string")).Put("b", model.BytesV(t.Sub("slice.b").Bytes(20+t.Choice(200, "slice.blen")))).
 			Put("l", model.ListV(model.StringV("abcdefghij"), model.BytesV([]byte("0123456789"))))
@@ -698,6 +730,57 @@ func (w *world) step(h int, rd *reader, op, a, b, c int) string {
 		w.share = true
 		w.st.Inc("probe.abandoned_builder")
 		return fmt.Sprintf("abandon-builder(%s#%d)", e.origin, i)
+	case 16, 17: // nodes handed out by an iterator are retained while the iteration goes on, and assigned by reference into a list
+		if e.snap.K != model.Map && e.snap.K != model.List {
+			return "retain-skip"
+		}
+		nb := basicnode.Prototype.List.NewBuilder()
+		var want []*model.V
+		pan := safe(func() {
+			la, err := nb.BeginList(-1)
+			if err != nil {
+				return
+			}
+			if e.snap.K == model.Map {
+				it := e.n.MapIterator()
+				for idx := 0; !it.Done(); idx++ {
+					k, v, err := it.Next()
+					if err != nil {
+						return
+					}
+					// the key node (and the value node) of THIS step, kept past the next step
+					if idx < 3 {
+						w.add(k, model.StringV(e.snap.Keys[idx]), "map-iterator-key-of-"+e.origin, nil)
+						w.add(v, e.snap.Vals[idx], "map-iterator-value-of-"+e.origin, nil)
+					}
+					la.AssembleValue().AssignNode(k)
+					want = append(want, model.StringV(e.snap.Keys[idx]))
+				}
+			} else {
+				it := e.n.ListIterator()
+				for idx := 0; !it.Done(); idx++ {
+					_, v, err := it.Next()
+					if err != nil {
+						return
+					}
+					if idx < 3 {
+						w.add(v, e.snap.Vals[idx], "list-iterator-value-of-"+e.origin, nil)
+					}
+					la.AssembleValue().AssignNode(v)
+					want = append(want, e.snap.Vals[idx])
+				}
+			}
+			la.Finish()
+		})
+		if pan == "" && len(want) == len(e.snap.Vals) {
+			w.add(nb.Build(), &model.V{K: model.List, Vals: want}, "list-of-iterator-nodes", nil)
+		}
+		w.share = true
+		w.st.Inc("probe.iterator_nodes_retained")
+		return fmt.Sprintf("retain-iterator-nodes(%s#%d)", e.origin, i)
+	case 18: // a reflection-bound typed map whose builder was given the same key twice (it does not refuse)
+		w.spawn(9)
+		return "spawn(bindnode-map-repeated-key)"
 	case 14, 15: // another block is stored and loaded through the same link system while earlier loaded nodes are held
 		before := len(w.pool)
 		w.spawn(3)
